@@ -643,6 +643,106 @@ func firstLines(s string, n int) string {
 	return strings.Join(l, "\n  ")
 }
 
+// audit builds the mirror with the race detector and runs every scheduled scenario's body free
+// (real goroutines, real primitives through the passthrough shims). It validates the assumption the
+// exploration rests on - Cloak's goroutines communicate only through instrumented operations - and
+// never decides a property: races whose two accesses are both in harness code are dropped, the rest
+// are written to audit/<prop>.txt and summarised.
+func audit(prop string, seed int64) int {
+	m, err := buildMirror(true)
+	defer m.cleanup()
+	if err != nil {
+		fatal("%v", err)
+	}
+	jobs, err := m.listJobs(prop, "quick")
+	if err != nil {
+		fatal("%v", err)
+	}
+	os.MkdirAll(filepath.Join(verifDir, "audit"), 0o755)
+	var out strings.Builder
+	total, cloak := 0, 0
+	seen := map[string]bool{}
+	for _, j := range jobs {
+		jb, _ := json.Marshal(j)
+		cmd := exec.Command(m.vx, "run", string(jb))
+		cmd.Env = append(os.Environ(), "VERIF_AUDIT=10", fmt.Sprintf("VERIF_SEED=%d", seed), "VERIF_DIR="+verifDir, "VERIF_REPO="+repoDir, "GORACE=halt_on_error=0")
+		var stderr bytes.Buffer
+		cmd.Stderr = &stderr
+		cmd.Stdout = io.Discard
+		done := make(chan error, 1)
+		cmd.Start()
+		go func() { done <- cmd.Wait() }()
+		select {
+		case <-done:
+		case <-time.After(120 * time.Second):
+			cmd.Process.Kill()
+		}
+		for _, rpt := range strings.Split(stderr.String(), "==================") {
+			if !strings.Contains(rpt, "DATA RACE") {
+				continue
+			}
+			total++
+			// the first source line of each of the two access stacks
+			var tops []string
+			for _, block := range strings.Split(rpt, "\n\n") {
+				if !(strings.Contains(block, "Write at") || strings.Contains(block, "Read at") || strings.Contains(block, "Previous write at") || strings.Contains(block, "Previous read at")) {
+					continue
+				}
+				for _, l := range strings.Split(block, "\n") {
+					l = strings.TrimSpace(l)
+					if strings.HasPrefix(l, "/") && strings.Contains(l, ".go:") && !strings.Contains(l, "/internal/vrt/") && !strings.Contains(l, "/internal/vnet/") && !strings.Contains(l, "golang.org/toolchain@") && !strings.Contains(l, "/go/src/") {
+						if i := strings.Index(l, "/src/"); i >= 0 {
+							l = l[i+5:]
+						}
+						tops = append(tops, strings.Fields(l)[0])
+						break
+					}
+				}
+			}
+			// a race whose racing access itself is inside the shims or the in-memory network is the
+			// harness's, not Cloak's
+			shim := false
+			for _, block := range strings.Split(rpt, "\n\n") {
+				ls := strings.Split(strings.TrimSpace(block), "\n")
+				if len(ls) >= 3 && (strings.Contains(ls[0], " at 0x")) && (strings.Contains(ls[2], "/internal/vrt/") || strings.Contains(ls[2], "/internal/vnet/")) {
+					shim = true
+				}
+			}
+			if shim {
+				continue
+			}
+			harnessOnly := len(tops) > 0
+			for _, t := range tops {
+				if !strings.Contains(t, "zz_verif_") {
+					harnessOnly = false
+				}
+			}
+			if harnessOnly {
+				continue
+			}
+			key := strings.Join(tops, " <-> ")
+			if seen[key] {
+				continue
+			}
+			seen[key] = true
+			cloak++
+			fmt.Fprintf(&out, "== %s %s\n   %s\n%s\n", j.Scenario, paramStr(j.Params), key, rpt)
+		}
+	}
+	path := filepath.Join(verifDir, "audit", prop+".txt")
+	os.WriteFile(path, []byte(out.String()), 0o644)
+	fmt.Printf("race audit %s: %d jobs, %d race reports, %d distinct involving Cloak code (details: %s)\n", prop, len(jobs), total, cloak, path)
+	var ks []string
+	for k := range seen {
+		ks = append(ks, k)
+	}
+	sort.Strings(ks)
+	for _, k := range ks {
+		fmt.Printf("  race: %s\n", k)
+	}
+	return 0
+}
+
 func replay(path string) int {
 	b, err := os.ReadFile(path)
 	if err != nil {
@@ -703,6 +803,11 @@ func main() {
 			fatal("replay needs a file")
 		}
 		os.Exit(replay(os.Args[2]))
+	case "audit":
+		if len(os.Args) < 3 {
+			fatal("audit needs a property id")
+		}
+		os.Exit(audit(os.Args[2], seed))
 	case "warm":
 		m, err := buildMirror(false)
 		m.cleanup()
